@@ -63,6 +63,10 @@ struct Plan {
     /// it occur between frames (never inside one) and timed-out calls are repeated
     #[serde(default)]
     conn_timeout_ms: u64,
+    /// with conn_timeout_ms: the caller gives up each receive_message call after this long (drops the
+    /// future) and calls again; on this link that can only happen while no byte of a frame has arrived
+    #[serde(default)]
+    cancel_ms: u64,
     #[serde(default)]
     salt: u64,
 }
@@ -115,7 +119,7 @@ impl Scenario for C06 {
                 gap_ms: *r.pick(&[0u32, 0, 0, 1, 30]),
             });
         }
-        let mut p = Plan { header_mode, client: end(r), server: end(r), cap: *r.pick(&[0u32, 0, 4096]), items, interleave: r.chance(1, 2), read_half: !header_mode && r.chance(1, 3), raw: r.chance(1, 10), rh_timeout_ms: 0, conn_timeout_ms: 0, salt: r.next_u64() };
+        let mut p = Plan { header_mode, client: end(r), server: end(r), cap: *r.pick(&[0u32, 0, 4096]), items, interleave: r.chance(1, 2), read_half: !header_mode && r.chance(1, 3), raw: r.chance(1, 10), rh_timeout_ms: 0, conn_timeout_ms: 0, cancel_ms: 0, salt: r.next_u64() };
         if p.read_half && r.chance(1, 2) {
             // a short I/O timeout, idle gaps beyond it, and a network whose mid-frame delays stay far below it
             p.rh_timeout_ms = *r.pick(&[300u64, 2_000]);
@@ -134,6 +138,7 @@ impl Scenario for C06 {
         if !p.read_half && !p.raw && r.chance(1, 6) {
             // short connection timeout, idle gaps beyond it, and a link on which a frame always arrives whole
             p.conn_timeout_ms = *r.pick(&[300u64, 2_000]);
+            p.cancel_ms = if r.chance(1, 2) { *r.pick(&[50u64, 100, 170]) } else { 0 };
             p.client.spurious_16 = 0;
             p.client.max_delay_ms = 0;
             p.client.latency_ms = 0;
@@ -153,6 +158,9 @@ impl Scenario for C06 {
             Ok(p) => p,
             Err(_) => return RunOutput::default(),
         };
+        if p.cancel_ms > 0 && (p.conn_timeout_ms == 0 || p.cancel_ms >= p.conn_timeout_ms) {
+            return RunOutput::default();
+        }
         if p.conn_timeout_ms > 0 && (p.server.latency_ms > 0 || p.server.stall_16 > 0 || p.server.short_writes || p.client.spurious_16 > 0 || p.client.latency_ms > 0 || p.items.iter().any(|i| i.n_frags > 0)) {
             return RunOutput::default();
         }
@@ -172,7 +180,7 @@ impl Scenario for C06 {
             components_stubbed: &["TCP (SimNet)", "EPMD (stub)", "remote node (conforming sender model with an independent encoder)"],
             assumptions: &["junk frames never touch atom-cache slots the sender model uses (reserved segment 7) and use sequence ids disjoint from valid fragments", "fragmented messages use header entries in reserved segment 6 so that the known fragment defect cannot cascade into later messages"],
             fault_prefixes: &["fault.", "net."],
-            expected_probes: &["probe.c06.ok_passthrough", "probe.c06.ok_header", "probe.c06.tick_skipped", "probe.c06.junk_rejected", "probe.c06.message_after_junk_intact", "probe.c06.fragmented_sent", "probe.c06.read_half_api", "probe.c06.raw_api", "probe.c06.junk_with_intact_header", "probe.c06.read_half_short_timeout", "probe.c06.idle_timeout_retried"],
+            expected_probes: &["probe.c06.ok_passthrough", "probe.c06.ok_header", "probe.c06.tick_skipped", "probe.c06.junk_rejected", "probe.c06.message_after_junk_intact", "probe.c06.fragmented_sent", "probe.c06.read_half_api", "probe.c06.raw_api", "probe.c06.junk_with_intact_header", "probe.c06.read_half_short_timeout", "probe.c06.idle_timeout_retried", "probe.c06.receive_cancelled_while_idle"],
         }
     }
 }
@@ -421,11 +429,28 @@ pub async fn receive_all(conn: &mut Connection, n: usize) -> Vec<Got> {
 /// that times out while the peer is idle is simply repeated (the caller's view of "keep
 /// receiving"); everything else is recorded. `n` results are collected.
 pub async fn receive_all_retrying_idle_timeouts(w: &Arc<World>, conn: &mut Connection, n: usize) -> Vec<Got> {
+    receive_all_retrying(w, conn, n, 0).await
+}
+
+/// As above; with `cancel_ms` > 0 the caller additionally abandons a call (drops its future) that has
+/// not returned after that long, and calls again.
+pub async fn receive_all_retrying(w: &Arc<World>, conn: &mut Connection, n: usize, cancel_ms: u64) -> Vec<Got> {
     let mut out = Vec::new();
     let mut calls = 0;
-    while out.len() < n && calls < 50 * n + 1000 {
+    while out.len() < n && calls < 400 * n + 4000 {
         calls += 1;
-        match conn.receive_message().await {
+        let res = if cancel_ms > 0 {
+            match tokio::time::timeout(Duration::from_millis(cancel_ms), conn.receive_message()).await {
+                Ok(r) => r,
+                Err(_) => {
+                    w.stat("probe.c06.receive_cancelled_while_idle");
+                    continue;
+                }
+            }
+        } else {
+            conn.receive_message().await
+        };
+        match res {
             Ok((c, p)) => out.push(Ok((to_val(&c.to_term()), p.as_ref().map(to_val)))),
             Err(e) => {
                 let text = e.to_string();
@@ -509,7 +534,7 @@ async fn scenario(w: &Arc<World>, p: &Plan) {
         }
         out
     } else if p.conn_timeout_ms > 0 {
-        receive_all_retrying_idle_timeouts(w, &mut conn, n + 1).await
+        receive_all_retrying(w, &mut conn, n + 1, p.cancel_ms).await
     } else {
         receive_all(&mut conn, n + 1).await
     };
